@@ -286,7 +286,13 @@ class TS:
         for sig, value in nl.signals.items():
             nets = list(value)
             if nets and nets[0].is_cell and isinstance(nl.cells[nets[0].cell], nir.FlipFlop):
-                ffname.setdefault(nets[0].cell, sig)
+                cidx = nets[0].cell
+                if len(nets) == len(nl.cells[cidx].data) and all(
+                        n.is_cell and n.cell == cidx and n.bit == i for i, n in enumerate(nets)):
+                    # prefer the name the signal has in the module that owns the flip-flop
+                    owner = nl.modules[nl.cells[cidx].module_idx]
+                    if cidx not in ffname or (sig in owner.signal_names and ffname[cidx] not in owner.signal_names):
+                        ffname[cidx] = sig
         self.ff_signal = {}
         rpname = {}
         for sig, value in nl.signals.items():
@@ -400,6 +406,10 @@ class TS:
         if path not in self.paths:
             raise BindingError(f"no signal at path {path!r}")
         return self.of(self.paths[path])
+
+    def key(self, name):
+        """the global (prefixed) name of an input port, as used in traces"""
+        return self.prefix + name
 
     def has(self, path):
         return path in self.inputs or path in self.outputs or path in self.paths
